@@ -6,17 +6,16 @@ import os
 VERIF = os.path.dirname(os.path.dirname(os.path.abspath(__file__)))
 ALL = ['C%02d' % i for i in range(1, 21)]
 
-# pid -> (design section, technique, level text, level note)
-CLAIMED = {
-    'C08': ('DESIGN.md §4 C08',
-            'Coq proof (Filter.v/FilterFacts.v/P_C08.v) + correspondence check of build_filtering_func against the Gallina model evaluated by vm_compute',
-            'Theorems over ALL pattern lists, names and regex oracles: accept <-> statement (under "." matches the name), '
-            'set-extensionality (order/duplicates), both monotonicity laws, plus the two documented corner refutations; '
-            'the model is tied to the live build_filtering_func on every run (exhaustive small lists + random), and the '
-            'property predicate c08_ok is evaluated in Coq on the implementation\'s own answers.',
-            'Trusted: Coq kernel + vm_compute; Python re as oracle (answers shipped per case); harness generators and literal printer. '
-            'End-to-end use of the predicate by -t/-m/--layer is covered by the C03/C14 world checks.'),
-}
+import importlib
+import sys
+sys.path.insert(0, os.path.join(VERIF, 'harness'))
+
+CLAIMED = {}
+for _pid in ALL:
+    if os.path.exists(os.path.join(VERIF, 'harness', 'props', _pid.lower() + '.py')):
+        _m = importlib.import_module('props.' + _pid.lower())
+        if getattr(_m, 'CLAIM', True):
+            CLAIMED[_pid] = ('DESIGN.md §4 ' + _pid, _m.TECHNIQUE, _m.LEVEL_TEXT, _m.LEVEL_NOTE)
 
 
 def main():
